@@ -38,6 +38,8 @@ func init() {
 		{Name: "dump-prints-go-syntax-of-the-packet", Rule: "R18.1", Where: "(*Connect).dump", Edits: []Edit{{"connect.go", "\tfmt.Fprintf(w, \"AuthData: %v\\n\", p.AuthData())", "\tfmt.Fprintf(w, \"%#v\\n\", p)\n\tfmt.Fprintf(w, \"AuthData: %v\\n\", p.AuthData())"}}},
 		{Name: "dump-prints-the-packet-with-a-number-verb", Rule: "R18.1", Where: "(*Connect).dump", Edits: []Edit{{"connect.go", "\tfmt.Fprintf(w, \"AuthData: %v\\n\", p.AuthData())", "\tfmt.Fprintf(w, \"%d\\n\", p)\n\tfmt.Fprintf(w, \"AuthData: %v\\n\", p.AuthData())"}}},
 		{Name: "dump-table-lookup-on-password-bytes", Rule: "R18.1", Where: "(*Connect).dump", Edits: []Edit{{"connect.go", "\tp.UserProperties.dump(w)\n}\n\nfunc stars", "\tp.UserProperties.dump(w)\n\tif len(p.password) > 0 {\n\t\tvar classes [256]string\n\t\tfmt.Fprintf(w, \"class: %s\\n\", classes[p.password[0]])\n\t}\n}\n\nfunc stars"}}},
+		{Name: "dump-through-a-printf-style-wrapper", Rule: "R18.1", Where: "#fmt-operand", Edits: []Edit{{"connect.go", "\tp.UserProperties.dump(w)\n}\n\nfunc stars", "\tp.UserProperties.dump(w)\n\tlogf(w, \"user: %s\\n\", p.Username())\n}\n\nfunc logf(w io.Writer, format string, args ...interface{}) {\n\tfmt.Fprintf(w, format, args...)\n}\n\nfunc stars"}}},
+		{Name: "dump-through-io-writestring", Rule: "R18.1", Where: "(*Connect).dump#write", Edits: []Edit{{"connect.go", "\tp.UserProperties.dump(w)\n}\n\nfunc stars", "\tp.UserProperties.dump(w)\n\tio.WriteString(w, p.Username())\n}\n\nfunc stars"}}},
 		{Name: "setter-stores-a-copy", Silent: true, Edits: []Edit{{"connect.go", "\tp.password = v\n", "\tp.password = append([]byte(nil), v...)\n"}}},
 		{Name: "print-length-only", Silent: true, Edits: []Edit{{"connect.go", "fmt.Fprintf(w, \"Password: %q\\n\", stars(len(p.Password())))", "fmt.Fprintf(w, \"Password: %d bytes\\n\", len(p.Password()))"}}},
 	}})
@@ -571,6 +573,18 @@ func checkC18(p *Prog, c *Check) {
 				case *ssa.Call:
 					cc := x.Common()
 					if fc := AsFmtCall(x); fc != nil {
+						if fc.Args == nil {
+							// the operands could not be recovered (a printf-style wrapper passing its own args... on): the
+							// operand list itself must not carry credential content
+							for i, a := range cc.Args {
+								nsinks++
+								fnSinks++
+								if t.isT(a) {
+									fnBad++
+									c.Bad("R18.1", fmt.Sprintf("%s#fmt-operand", qname(fn)), posOf(p, ins), fmt.Sprintf("argument %d of %s (an operand list passed on) carries credential content (%s)", i, fc.Name, t.whyOf(a)))
+								}
+							}
+						}
 						for i, a := range fc.Args {
 							nsinks++
 							fnSinks++
@@ -607,6 +621,28 @@ func checkC18(p *Prog, c *Check) {
 							}
 						}
 						continue
+					}
+					// other ways of handing text to a writer
+					if cc.IsInvoke() && (cc.Method.Name() == "WriteString" || cc.Method.Name() == "WriteByte" || cc.Method.Name() == "WriteRune") && len(cc.Args) == 1 {
+						nsinks++
+						fnSinks++
+						if t.isT(cc.Args[0]) {
+							fnBad++
+							c.Bad("R18.1", qname(fn)+"#write", posOf(p, ins), "credential content is handed to the writer through "+cc.Method.Name())
+						}
+					}
+					if sc := cc.StaticCallee(); sc != nil && sc.Blocks == nil {
+						switch fullName(sc) {
+						case "io.WriteString", "(*bufio.Writer).WriteString", "(*bufio.Writer).Write", "(*bufio.Writer).WriteByte", "(*bufio.Writer).WriteRune", "io.Copy", "io.CopyN":
+							nsinks++
+							fnSinks++
+							for _, a := range cc.Args[1:] {
+								if t.isT(a) {
+									fnBad++
+									c.Bad("R18.1", qname(fn)+"#write", posOf(p, ins), "credential content is handed to a writer through "+fullName(sc))
+								}
+							}
+						}
 					}
 					if cc.IsInvoke() && cc.Method.Name() == "Write" && len(cc.Args) == 1 {
 						nsinks++
